@@ -222,6 +222,7 @@ def run(model, rep, tier):
            '' if ok and inside else 'trial sites are not read from the (un)occupied sets at the time of the move: after an accepted move '
                                     'the sets have changed, so a pre-computed batch applies moves to stale sites', engine='siblings')
     _transition_predicates(model, rep, mod, ref, jit)
+    _trial_predicates(model, rep, mod, ref, jit)
     acc = getattr(up[0], '_parent', None)
     while acc is not None and not isinstance(acc, ast.If):
         acc = getattr(acc, '_parent', None)
@@ -379,8 +380,80 @@ def _transition_predicates(model, rep, mod, ref, jit):
            qual='MonteCarloSampler_jit.transitions')
 
 
+def _trial_predicates(model, rep, mod, ref, jit):
+    """the conditions under which deltaE_trial adds / subtracts an interaction value are the same function of (K = current
+    count of unoccupied sites of the interaction, D = trial change of that count) in the reference and the compiled sampler.
+    K and D enter only through comparisons, so the two predicates are compared on a finite grid of (D, K)."""
+    import re
+    from ._common import conditions_at, update_of, resolve_in_block
+    rep.rule('trial-predicate-agreement', 'reference and compiled deltaE_trial add / subtract an interaction under the same conditions '
+                                          'on its count K and trial change D')
+
+    def table(fn, q):
+        out = []
+        rets = [r for r in walk_local(fn) if isinstance(r, ast.Return) and isinstance(r.value, ast.Name)]
+        if not rets:
+            return None
+        acc = rets[-1].value.id
+        for st in ast.walk(fn):
+            u = update_of(st) if isinstance(st, (ast.Assign, ast.AugAssign)) else None
+            if not u or u[0] != acc or u[1] not in ('Add', 'Sub') or 'interactvalue' not in unparse(u[2]):
+                continue
+            conds = []
+            for c in conditions_at(fn, st):
+                e = ast.parse(c, mode='eval').body
+                # write block-local temporaries out (ccount = self.clustercount[interact])
+                p_ = st
+                while getattr(p_, '_parent', None) is not None and not isinstance(p_._parent, (ast.For, ast.While, ast.FunctionDef)):
+                    p_ = p_._parent
+                t = unparse(resolve_in_block(p_, e)) if p_ is not None else c
+                for blk_stmt in (getattr(p_, '_parent', None).body if getattr(p_, '_parent', None) is not None else []):
+                    if isinstance(blk_stmt, ast.Assign) and isinstance(blk_stmt.targets[0], ast.Name) and blk_stmt.lineno < st.lineno \
+                            and re.search(r'clustercount|dcluster', unparse(blk_stmt.value)):
+                        t = re.sub(r'\b%s\b' % re.escape(blk_stmt.targets[0].id), '(%s)' % unparse(blk_stmt.value), t)
+                t = re.sub(r'\(?self\.clustercount\[(?:[^\[\]]|\[[^\]]*\])*\]\)?', 'K', t)
+                t = re.sub(r'\(?self\.dcluster\[(?:[^\[\]]|\[[^\]]*\])*\]\)?', 'D', t)
+                t = re.sub(r'\bdcount\b', 'D', t)
+                t = re.sub(r'\w+ >= self\.Nenergy', 'False', t)
+                t = re.sub(r'\w+ < self\.Nenergy', 'True', t)
+                if re.search(r'\b[KD]\b', t):
+                    conds.append(t)
+            out.append((1 if u[1] == 'Add' else -1, conds, st))
+        return out
+    tr, tj = table(ref.methods['deltaE_trial'], 'ref'), table(jit.methods['deltaE_trial'], 'jit')
+    if not tr or not tj:
+        rep.undecided('deltaE_trial: the statements accumulating the trial energy were not located')
+        return
+
+    def evaluate(tab):
+        res = {}
+        for D in (-2, -1, 1, 2):
+            for K in (0, 1, 2, 3):
+                if D > 0 and K < D:
+                    continue   # unreachable: the D entries of the site being filled are unoccupied sites counted in K
+                tot = 0
+                for sign, conds, st in tab:
+                    try:
+                        if all(eval(c, {'__builtins__': {}}, {'K': K, 'D': D}) for c in conds):
+                            tot += sign
+                    except Exception:
+                        return None
+                res[(D, K)] = tot
+        return res
+    a, b = evaluate(tr), evaluate(tj)
+    if a is None or b is None:
+        rep.undecided('deltaE_trial: a condition on the counts could not be evaluated on the finite grid')
+        return
+    bad = sorted(k for k in a if a[k] != b[k])
+    rep.ob('trial-predicate-agreement', mod, tj[0][2], 'deltaE_trial add/subtract conditions agree on %d (D, K) cases' % len(a), not bad,
+           '' if not bad else 'for (trial change D, current count K) = %s the compiled sampler %s while the reference %s: the trial energy '
+           'differs from the realised change' % (bad[0], 'adds %+d x value' % b[bad[0]], 'adds %+d x value' % a[bad[0]]),
+           engine='siblings', qual='MonteCarloSampler_jit.deltaE_trial')
+
+
 CL = 'onsager/cluster.py'
 BREAKERS = [
+    (CL, "            elif self.clustercount[n] == self.dcluster[n]:\n                dE += self.interactvalue[n]", "            elif self.clustercount[n] == 1:\n                dE += self.interactvalue[n]", 'trial-predicate-agreement'),
     (CL, "    ('index', int64[:])\n]", "    ('indexx', int64[:])\n]", 'spec-table'),
     (CL, "                                     self.occ.copy(), self.clustercount.copy(), self.dcluster.copy(),", "                                     self.clustercount.copy(), self.occ.copy(), self.dcluster.copy(),", 'copy-order'),
     (CL, "                self.jump_Q[n] = np.inf", "                self.jump_Q[n] = np.Inf", 'external-names'),
